@@ -78,9 +78,9 @@ func c03IntBoundaries(rng *rand.Rand, signed bool, n int, nrand int) []*big.Int 
 	}
 	if signed {
 		add(big.NewInt(-1))
-		add(new(big.Int).Neg(vhPow2(n - 1)))                          // min
+		add(new(big.Int).Neg(vhPow2(n - 1)))                                // min
 		add(new(big.Int).Add(new(big.Int).Neg(vhPow2(n-1)), big.NewInt(1))) // min+1
-		add(new(big.Int).Sub(vhPow2(n-1), big.NewInt(1)))            // max
+		add(new(big.Int).Sub(vhPow2(n-1), big.NewInt(1)))                   // max
 		add(new(big.Int).Sub(vhPow2(n-1), big.NewInt(2)))
 		add(new(big.Int).Neg(new(big.Int).Mod(alt, vhPow2(n-1))))
 		if n > 9 {
@@ -614,4 +614,3 @@ func (g *c03Gen) fillHashmap(hm reflect.Value, sizes []int, depth int) {
 	vhSetUnexported(keysF, keys)
 	vhSetUnexported(valsF, vals)
 }
-
